@@ -1,6 +1,7 @@
 (** C07 — macro expansion is hygienic: property theorems only. *)
 From Coq Require Import NArith List Bool.
-From ChibiV Require Import C07.Env C07.EnvProofs C07.Expand C07.RenamerProofs C07.ScopeProofs C07.ExpandProofs.
+From ChibiV Require Import C07.Env C07.EnvProofs C07.Expand C07.RenamerProofs C07.ScopeProofs C07.ExpandProofs
+  C07.SynCloProofs C07.Strip C07.StripProofs.
 Import ListNotations.
 
 (** referential transparency: an identifier inserted by a macro (closure object over the definition
@@ -208,3 +209,60 @@ Theorem renamer_distinct_across_expansions : forall E1 E2 x n1 m1 n2 m2 rs1 c1 r
   key_eqb c1 c2 = false.
 Proof. exact renamer_distinct_across_expansions_proof. Qed.
 Print Assumptions renamer_distinct_across_expansions.
+
+(** *** round 3: user code closed with free names (sexp_extend_synclo_env), and the two-stage strip *)
+
+(** inside user code that a macro closed in the use environment U with free names fv (and placed under its
+    own bindings, rho), a symbol U binds — by a binding or by a rename entry (= an import) — that is not a
+    free name keeps U's cell, whatever rho binds under that name *)
+Theorem closed_code_keeps_use_env_binding : forall cfv rho U fv s c,
+  memq (Sym s) fv = false ->
+  fv_memq (Sym s) cfv = [] ->
+  cell_loc1 U (Sym s) false = Some c ->
+  env_cell (enter_fv cfv rho fv) (enter_env cfv rho U fv) (Sym s) false = Some c.
+Proof. exact closed_code_keeps_use_env_binding_proof. Qed.
+Print Assumptions closed_code_keeps_use_env_binding.
+
+Theorem closed_code_keeps_import : forall cfv rho U1 r b U2 fv s c,
+  memq (Sym s) fv = false ->
+  fv_memq (Sym s) cfv = [] ->
+  cell_loc1 U1 (Sym s) false = None ->
+  lookup_list (Sym s) r = Some c ->
+  env_cell (enter_fv cfv rho fv) (enter_env cfv rho (U1 ++ Frame r b :: U2) fv) (Sym s) false = Some c.
+Proof. exact closed_code_keeps_import_proof. Qed.
+Print Assumptions closed_code_keeps_import.
+
+Theorem closed_code_free_name_at_use : forall cfv rho U fv s,
+  memq (Sym s) fv = true ->
+  env_cell (enter_fv cfv rho fv) (enter_env cfv rho U fv) (Sym s) false = cell_loc1 rho (Sym s) false.
+Proof. exact closed_code_free_name_at_use_proof. Qed.
+Print Assumptions closed_code_free_name_at_use.
+
+(** the "does it contain any closure" test that gates the copy is complete: a closure anywhere in the datum
+    (car, any cdr, dotted tail, any vector slot, nested, under closure layers) within the bound is seen *)
+Theorem contains_syntax_complete : forall depth x,
+  hgt x < depth -> has_clo x = true -> contains depth x = true.
+Proof. exact contains_syntax_complete_proof. Qed.
+Print Assumptions contains_syntax_complete.
+
+Theorem contains_syntax_sound : forall depth x, contains depth x = true -> has_clo x = true.
+Proof. exact contains_sound_proof. Qed.
+Print Assumptions contains_syntax_sound.
+
+(** predicate + copy = the specification (remove every closure layer, keep everything else) *)
+Theorem strip_correct : forall bound x, hgt x < bound -> strip_synclos bound x = strip_spec x.
+Proof. exact strip_correct_proof. Qed.
+Print Assumptions strip_correct.
+
+Theorem strip_leaves_no_closure : forall bound x, hgt x < bound -> has_clo (strip_synclos bound x) = false.
+Proof. exact strip_leaves_no_closure_proof. Qed.
+Print Assumptions strip_leaves_no_closure.
+
+Theorem strip_idempotent : forall x, strip_spec (strip_spec x) = strip_spec x.
+Proof. exact strip_idempotent_proof. Qed.
+Print Assumptions strip_idempotent.
+
+(** the list-only [strip] used by the model of analyze is this specification on the embedded data *)
+Theorem strip_model_is_spec : forall x, strip_spec (embed x) = embed (strip x).
+Proof. exact strip_embed. Qed.
+Print Assumptions strip_model_is_spec.
